@@ -20,6 +20,8 @@ ASSUMPTIONS = ["values are integer tags; a stored missing value (NaN, or the var
                "results are .load()ed before the work directory is removed",
                "an integer variable with a declared fill may come back as float after the netCDF round trip; values are compared numerically"]
 EXHAUSTIVE = {"quick": False, "thorough": False}
+# whole sessions on derived datasets (EmsSystem) are part of the thorough tier of this property
+ALSO = {"quick": [], "thorough": ["harness.props.sessions"]}
 cases = clipdrv.cases
 execute = clipdrv.execute
 
